@@ -440,8 +440,11 @@ def _charfn(sh, rec):
                 rec.count("heaviside_joint_probes")
                 rr = dev / (2 * x * x + 16 * eps)
                 rec.stat("heaviside_joint", rr)
+                # informational only: the property states monotonicity, range, the 0/1 plateaus and H(phi)+H(-phi)=1; C1 smoothness at
+                # the joints is NOT part of the statement, so a failing ratio here is recorded (stat "heaviside_joint") but never a verdict
+                # (the exact sine-Heaviside formula is C13's business).
                 if rr > 1:
-                    rec.violation("heaviside-joint-not-smooth", f"|H - limit| = {dev!r} at relative distance {x:.4g} inside the joint (> 2 x^2) {meta}", wit)
+                    rec.count("heaviside_joint_not_C1_informational")
 
 
 # ------------------------------------------------------------------------------------------------
